@@ -76,8 +76,18 @@ impl WalIndex {
             )
         })?;
 
+        #[cfg(walrus_verif)]
+        match crate::wal::verif::io_event("index_tmp_write", &tmp_path, "", 0, &bytes) {
+            crate::wal::verif::Action::Die => crate::wal::verif::die(),
+            crate::wal::verif::Action::Fail(e) => return Err(std::io::Error::from_raw_os_error(e)),
+            _ => {}
+        }
         fs::write(&tmp_path, &bytes)?;
+        #[cfg(walrus_verif)]
+        crate::wal::verif::io_gate("index_tmp_fsync", &tmp_path, "")?;
         fs::File::open(&tmp_path)?.sync_all()?;
+        #[cfg(walrus_verif)]
+        crate::wal::verif::io_gate("index_rename", &tmp_path, &self.path)?;
         fs::rename(&tmp_path, &self.path)?;
         Ok(())
     }
